@@ -240,8 +240,82 @@ def render(tokens: list) -> str:
     return "".join(tok if isinstance(tok, str) else tok[0] * tok[1] for tok in tokens)
 
 
+def flatten_embedded(pattern: str) -> str | None:
+    """`A ld<DP> B lt<TP> C` -> `A DP B TP C` (the pattern an embedded custom date/time pattern is equivalent to).
+
+    Scans at top level only (quotes and escapes respected). Returns None when the brackets do not balance or an
+    embedded pattern is a standard single-letter pattern (its expansion is culture data, not pattern text).
+    """
+    out = []
+    i, n = 0, len(pattern)
+    while i < n:
+        ch = pattern[i]
+        if ch in "'\"":
+            j = i + 1
+            while j < n and pattern[j] != ch:
+                j += 2 if pattern[j] == "\\" else 1
+            out.append(pattern[i : j + 1])
+            i = j + 1
+        elif ch == "\\":
+            out.append(pattern[i : i + 2])
+            i += 2
+        elif ch == "l" and pattern[i + 1 : i + 3] in ("d<", "t<"):
+            j = i + 3
+            depth = 1
+            while j < n and depth:
+                cj = pattern[j]
+                if cj in "'\"":
+                    k = j + 1
+                    while k < n and pattern[k] != cj:
+                        k += 2 if pattern[k] == "\\" else 1
+                    j = k + 1
+                    continue
+                if cj == "\\":
+                    j += 2
+                    continue
+                depth += cj == "<"
+                depth -= cj == ">"
+                j += 1
+            if depth:
+                return None
+            inner = pattern[i + 3 : j - 1]
+            if len(inner) <= 1 or (len(inner) == 2 and inner[0] == "%"):
+                return None
+            out.append(inner)
+            i = j
+        elif ch in "<>":
+            return None
+        else:
+            out.append(ch)
+            i += 1
+    return "".join(out)
+
+
 def st_valid_pattern(t: str) -> st.SearchStrategy[str]:
     """Patterns that are mostly accepted: distinct field letters, legal repeat counts, literal separators between."""
+    if t == "datetime":
+        # a quarter of the date-time patterns embed a date and/or a time pattern (ld<...>, lt<...>)
+        def emb(x):
+            dp, tp, sep, ed, et, order, lead = x
+            a = f"ld<{dp}>" if ed else dp
+            b = f"lt<{tp}>" if et else tp
+            parts = [a, b] if order else [b, a]
+            return lead + parts[0] + sep + parts[1]
+
+        embedded = st.tuples(
+            _st_valid_plain("date"),
+            _st_valid_plain("time"),
+            st.sampled_from(SEPARATORS),
+            st.booleans(),
+            st.booleans(),
+            st.booleans(),
+            st.sampled_from(["", "", "'x'"]),
+        ).map(emb)
+        return st.one_of(_st_valid_plain(t), _st_valid_plain(t), embedded, embedded)
+    return _st_valid_plain(t)
+
+
+def _st_valid_plain(t: str) -> st.SearchStrategy[str]:
     fields = FIELDS[t]
     letters = sorted(fields)
 
@@ -296,4 +370,13 @@ def st_any_pattern(t: str) -> st.SearchStrategy[str]:
     valid = st_valid_pattern(t)
     mutated = st.tuples(valid, st.integers(0, 7), st.integers(0, 30), st.sampled_from(list(alphabet))).map(mutate)
     twice = st.tuples(mutated, st.integers(0, 7), st.integers(0, 30), st.sampled_from(list(alphabet))).map(mutate)
-    return st.one_of(valid, valid, st.sampled_from(list(STANDARD)), mutated, twice, raw, uni, st.just(""), st.sampled_from(["%", "%%", "%d", "'", "\\", "ld<>", "ld<uuuu>", "lt<HH>", "l<G>", "uuuu-MM-dd'T'HH:mm:ss", "HHH", "MMMMM", "yyy"]))
+    extras = [valid, valid, st.sampled_from(list(STANDARD)), mutated, twice, raw, uni, st.just(""), st.sampled_from(["%", "%%", "%d", "'", "\\", "ld<>", "ld<uuuu>", "lt<HH>", "l<G>", "uuuu-MM-dd'T'HH:mm:ss", "HHH", "MMMMM", "yyy"])]
+    if t == "datetime":
+        # an embedded date/time pattern next to a loose field of the same kind (documented as an invalid pattern)
+        def over(x):
+            dp, tp, fld, before, et = x
+            tpart = f"lt<{tp}>" if et else tp
+            return (f"{fld} ld<{dp}> {tpart}" if before else f"ld<{dp}> {fld} {tpart}") if fld[0] in "dMuyc" else (f"{fld} lt<{tp}> {dp}" if before else f"lt<{tp}> {fld} {dp}")
+
+        extras.append(st.tuples(_st_valid_plain("date"), _st_valid_plain("time"), st.sampled_from(["dd", "d", "MM", "uuuu", "yyyy", "c", "HH", "mm", "ss", "tt"]), st.booleans(), st.booleans()).map(over))
+    return st.one_of(*extras)
